@@ -42,7 +42,10 @@ TRUSTED = ['the tree renderer of harness/props/C17.py (abstract include tree -> 
            'loops (theorem include_fetch_order covers every execution of an include statement; re-execution is tied on the implementation side only)',
            'the world / command-line renderer (mc_render, McGen) and the script-by-script reference of the mcli stream, the session driver of the '
            'reuse stream: each script / run is one run of the Lean include machine, but the command line (argparse, working directory, several '
-           'main() calls in one process) and the options dict shared between runs are host-only and tied on the implementation side only']
+           'main() calls in one process) and the options dict shared between runs are host-only and tied on the implementation side only',
+           'the host configuration forms of the hostcfg stream (callables and strings that are false in a truth test, str subclasses, debug mode, absent / '
+           'rejecting log functions, the exception zoo HOST_THROWS): the Lean machine sees a prefix string, a root location and "this fetch throws"; '
+           'that the outcome does not depend on WHICH object the host passed is tied on the implementation side only (oracle spec_obs)']
 
 CORPUS = os.path.join(fw.VERIF, 'harness', 'corpus', 'C17.jsonl')
 BIG = 100000
@@ -426,10 +429,123 @@ class _Thrown(Exception):
     pass
 
 
+class _StrRaises(Exception):
+    """an exception whose text cannot be produced"""
+    def __str__(self):
+        raise RuntimeError('cannot describe this failure')
+
+
+class _StrNone(Exception):
+    """an exception whose text is not a string"""
+    def __str__(self):
+        return None
+
+
+class _ReprRaises(Exception):
+    def __str__(self):
+        raise TypeError('no text')
+
+    def __repr__(self):
+        raise TypeError('no repr')
+
+
+class _FormatRaises(Exception):
+    def __format__(self, spec):
+        raise ValueError('cannot be formatted')
+
+
+class _StrRaisesBase(BaseException):
+    """not an Exception, and producing its text raises another non-Exception"""
+    def __str__(self):
+        raise GeneratorExit()
+
+
+class _Unprintable:
+    def __repr__(self):
+        raise RuntimeError('no repr')
+    __str__ = __repr__
+
+
+# what a host fetch function may throw (the Lean model knows only "throws"): ordinary I/O failures, exceptions that are not Exceptions,
+# exceptions whose text cannot be produced (str() raises / returns a non-string / format() raises / an argument has no repr), and the
+# library's OWN error classes - with texts that look like the errors of the include statement for ANOTHER location (decoys)
+HOST_THROWS = ['FileNotFoundError', 'PermissionError', 'IsADirectoryError', 'TimeoutError', 'UnicodeDecodeError', 'URLError', 'HTTPError',
+               'AssertionError', 'RecursionError', 'MemoryError', 'ExceptionGroup', 'ExceptionClass',
+               'KeyboardInterrupt', 'GeneratorExit', 'StopIteration', 'StopAsyncIteration', 'SystemExit',
+               'StrRaises', 'StrNone', 'ReprRaises', 'FormatRaises', 'StrRaisesBase', 'ArgsUnprintable',
+               'BareScriptRuntimeError', 'BareScriptRuntimeErrorDecoy', 'BareScriptRuntimeErrorBudget', 'BareScriptParserError',
+               'BareScriptParserErrorDecoy', 'ValueArgsError']
+UNPRINTABLE_THROWS = ('StrRaises', 'StrNone', 'ReprRaises', 'FormatRaises', 'StrRaisesBase', 'ArgsUnprintable')
+
+
 def make_exc(name):
-    rt = fw.impl()['runtime']
-    return {'ValueError': ValueError('fetch failed'), 'OSError': OSError(2, 'No such file'), 'KeyError': KeyError('k'),
-            'BareScriptRuntimeError': rt.BareScriptRuntimeError('inner'), 'SystemExit': SystemExit(3)}.get(name, _Thrown(name))
+    m = fw.impl()
+    rt = m['runtime']
+    basic = {'ValueError': ValueError('fetch failed'), 'OSError': OSError(2, 'No such file'), 'KeyError': KeyError('k'),
+             'BareScriptRuntimeError': rt.BareScriptRuntimeError('inner'), 'SystemExit': SystemExit(3)}
+    if name in basic:
+        return basic[name]
+    if name in ('URLError', 'HTTPError'):
+        import urllib.error                                   # pylint: disable=import-outside-toplevel
+        return urllib.error.URLError('no route') if name == 'URLError' else urllib.error.HTTPError('http://h/x', 404, 'Not Found', {}, None)
+    make = {
+        'FileNotFoundError': lambda: FileNotFoundError(2, 'No such file or directory', 'x.bare'),
+        'PermissionError': lambda: PermissionError(13, 'Permission denied'),
+        'IsADirectoryError': lambda: IsADirectoryError(21, 'Is a directory'),
+        'TimeoutError': lambda: TimeoutError('timed out'),
+        'UnicodeDecodeError': lambda: UnicodeDecodeError('utf-8', b'\xff\xfe', 0, 1, 'invalid start byte'),
+        'AssertionError': AssertionError,
+        'RecursionError': lambda: RecursionError('maximum recursion depth exceeded'),
+        'MemoryError': MemoryError,
+        'ExceptionGroup': lambda: ExceptionGroup('several', [OSError(5, 'I/O error'), _StrRaises()]),
+        'ExceptionClass': lambda: ValueError,              # `raise ValueError` - a class, not an instance
+        'KeyboardInterrupt': KeyboardInterrupt,
+        'GeneratorExit': GeneratorExit,
+        'StopIteration': lambda: StopIteration('done'),
+        'StopAsyncIteration': StopAsyncIteration,
+        'StrRaises': _StrRaises, 'StrNone': _StrNone, 'ReprRaises': _ReprRaises, 'FormatRaises': lambda: _FormatRaises('x'),
+        'StrRaisesBase': _StrRaisesBase,
+        'ArgsUnprintable': lambda: Exception(_Unprintable()),
+        'BareScriptRuntimeErrorDecoy': lambda: rt.BareScriptRuntimeError('Include of "decoy/elsewhere.bare" failed'),
+        'BareScriptRuntimeErrorBudget': lambda: rt.BareScriptRuntimeError('Exceeded maximum script statements (7)'),
+        'BareScriptParserError': lambda: m['parser'].BareScriptParserError('Syntax error', 'x = 1 +', 8, 1),
+        'BareScriptParserErrorDecoy': lambda: m['parser'].BareScriptParserError('Syntax error', 'x = 1 +', 8, 1, 'Included from "decoy/elsewhere.bare"'),
+        'ValueArgsError': lambda: m['value'].ValueArgsError('url', None),
+    }.get(name)
+    return make() if make is not None else _Thrown(name)
+
+
+class _FalsyFn:
+    """a host callable that is false in a truth test (bool() is False) - still a function that was configured"""
+    def __init__(self, fn):
+        self.fn = fn
+
+    def __call__(self, *args):
+        return self.fn(*args)
+
+    def __bool__(self):
+        return False
+
+
+class _EmptyFn(_FalsyFn):
+    """a host callable that is false in a truth test because it is an empty container (len() == 0)"""
+    __bool__ = None
+
+    def __len__(self):
+        return 0
+
+
+def safe_text(exc):
+    """str(exc), also for the exceptions whose text cannot be produced"""
+    try:
+        text = str(exc)
+        return text if isinstance(text, str) else repr(text)
+    except BaseException as inner:  # pylint: disable=broad-except
+        return f'<no text: {type(inner).__name__}>'
+
+
+def host_fn(fn, form):
+    return _FalsyFn(fn) if form == 'falsy' else _EmptyFn(fn) if form == 'empty' else fn
 
 
 def run_impl(case):
@@ -439,6 +555,12 @@ def run_impl(case):
     events = []
     bad_requests = []
     files = case['files']
+    # host-only configuration (absent: the plain one): {'debug': bool, 'log': 'record' | 'absent' | 'rejects-debug' | 'falsy' | 'empty',
+    # 'fetchFn' / 'urlFn': 'plain' | 'falsy' | 'empty' (callables that are false in a truth test), 'wrap': 'str' | 'strsub'}
+    host = case.get('host') or {}
+    debug = bool(host.get('debug'))
+    log_form = host.get('log', 'record')
+    wrap = _StrSub if host.get('wrap') == 'strsub' else str
 
     def fetch_fn(request):
         if not isinstance(request, dict) or set(request) != {'url'}:
@@ -453,16 +575,26 @@ def run_impl(case):
         return f['text']
 
     def log_fn(text):
+        if debug and isinstance(text, str) and text.startswith('BareScript:'):
+            # the lines of debug mode (linter, failed calls) are C18's business - but a log sink that rejects them must not matter here
+            if log_form == 'rejects-debug':
+                raise _Thrown('the log sink rejects debug lines')
+            return
         events.append(['exec', text])
 
     globals_ = {'trace': ''}
-    options = {'globals': globals_, 'logFn': log_fn, 'maxStatements': case['maxStatements'], 'systemPrefix': case['systemPrefix']}
+    options = {'globals': globals_, 'logFn': host_fn(log_fn, log_form), 'maxStatements': case['maxStatements'],
+               'systemPrefix': case['systemPrefix'] if case['systemPrefix'] is None else wrap(case['systemPrefix'])}
+    if log_form == 'absent':
+        del options['logFn']
+    if debug:
+        options['debug'] = True
     if case['systemPrefix'] is None and len(case['files']) % 2:
         del options['systemPrefix']                       # key absent and key = None are the same configuration
     if case['fetch']:
-        options['fetchFn'] = fetch_fn
+        options['fetchFn'] = host_fn(fetch_fn, host.get('fetchFn'))
     if case['urlFn'] is not None:
-        options['urlFn'] = functools.partial(options_mod.url_file_relative, case['urlFn'])
+        options['urlFn'] = host_fn(functools.partial(options_mod.url_file_relative, wrap(case['urlFn'])), host.get('urlFn'))
     outcome = {'kind': 'ok'}
     extra = {}
     try:
@@ -489,7 +621,7 @@ def run_impl(case):
         else:
             outcome = {'kind': 'other', 'class': 'BareScriptRuntimeError', 'msg': msg}
     except BaseException as exc:  # pylint: disable=broad-except
-        outcome = {'kind': 'other', 'class': type(exc).__name__, 'msg': str(exc)}
+        outcome = {'kind': 'other', 'class': type(exc).__name__, 'msg': safe_text(exc)}
     if bad_requests:
         extra['bad_requests'] = bad_requests[:3]
     if options.get('urlFn') is not url_fn_before:
@@ -513,6 +645,7 @@ def model_obs(resp):
 def spec_obs(case, impl):
     """The property's expectation for this case (statement budget aside). -> (expected dict, ok?)"""
     want_events, want_tags = [], []
+    no_log = (case.get('host') or {}).get('log') == 'absent'      # no log function configured: the fetch requests are all that is observed
     n_impl = len(impl['events'])
     n_trace = len(impl['trace'] or '')
     budget_out = impl['outcome'].get('kind') == 'exceeded' and 0 < case['maxStatements'] < BIG
@@ -523,7 +656,7 @@ def spec_obs(case, impl):
         if ev[0] == 'end':
             outcome = ev[1]
             break
-        if ev[0] == 'fetch' or ev[1].startswith('L'):
+        if ev[0] == 'fetch' or (ev[1].startswith('L') and not no_log):
             want_events.append(list(ev))
         if ev[0] == 'exec':
             want_tags.append(ev[1])
@@ -553,6 +686,27 @@ def standalone_parse_error(text):
     return None
 
 
+LEN_BUCKETS = [(64, '0-64'), (104, '65-104'), (120, '105-120'), (256, '121-256'), (1000, '257-1000')]
+
+
+def _system_under_base(case):
+    """Is a system include statement reachable in a file that has a location of its own (a base a wrong reading could resolve against)?"""
+    todo, seen = [(case['urlFn'], case['root']['items'])], set()
+    while todo:
+        self_loc, items = todo.pop()
+        for it in items:
+            if isinstance(it, dict) and 'inc' in it:
+                for url, system in it['inc']:
+                    if system and self_loc is not None:
+                        return True
+                    loc = spec_location(case['systemPrefix'], self_loc, url, system)
+                    f = case['files'].get(loc)
+                    if loc not in seen and f is not None and f['kind'] == 'text':
+                        seen.add(loc)
+                        todo.append((loc, f['items']))
+    return False
+
+
 def case_tags(case, impl):
     tags = ['outcome:' + impl['outcome'].get('kind', '?')]
     locs = list(case['files'])
@@ -562,7 +716,16 @@ def case_tags(case, impl):
     tags.append('fetches:' + ('0' if nf == 0 else '1-3' if nf <= 3 else '4-9' if nf <= 9 else '10+'))
     root = case['urlFn']
     tags.append('root:' + ('none' if root is None else 'url' if spec_is_url(root) else 'path'))
-    tags.append('prefix:' + ('none' if case['systemPrefix'] is None else 'set'))
+    tags.append('prefix:' + ('none' if case['systemPrefix'] is None else 'empty-string' if case['systemPrefix'] == '' else 'set'))
+    if 'url' in impl['outcome']:
+        n = len(impl['outcome']['url'])
+        tags.append('named-location-length:' + next((b for lim, b in LEN_BUCKETS if n <= lim), '1001+'))
+    host = case.get('host')
+    if host:
+        tags += [f'host:{k}={v}' for k, v in sorted(host.items()) if v not in (False, 'plain', 'str', None) and not (k == 'log' and v == 'record')]
+        tags += sorted({'throws:' + f['exc'] for f in case['files'].values() if f['kind'] == 'throws' and f.get('exc') in HOST_THROWS})
+        if case['systemPrefix'] == '' and any(e[0] == 'fetch' for e in impl['events']):
+            tags.append('empty-prefix/' + ('system-include-under-a-base' if _system_under_base(case) else 'other'))
     if any(spec_is_url(x) for x in locs) and any(not spec_is_url(x) for x in locs):
         tags.append('mixed-url-and-path-locations')
     if 'function incFn' in case['root']['text'] or any('function incFn' in (f.get('text') or '') for f in case['files'].values()):
@@ -596,6 +759,8 @@ def check_case(ctx, st, case, resp, origin):
             nontrivial=nontrivial, tags=case_tags(case, impl) + [origin])
     # 1. correspondence with the Lean mirror
     mobs = model_obs(resp)
+    if (case.get('host') or {}).get('log') == 'absent' and 'events' in mobs:
+        mobs['events'] = [e for e in mobs['events'] if e[0] == 'fetch']
     iobs = {k: impl[k] for k in ('events', 'outcome', 'trace', 'statementCount')}
     ctx.compare('include', _slim(case), iobs, mobs)
     # 1b. Lean mirror vs Lean spec on this case (theorem run_spec), when the run was not cut by the budget
@@ -756,6 +921,14 @@ HAND_FILES = {
     'sub/bad.bare': "ok = 1\nx = 1 +\n",
     'fn.bare': "function incl():\n    include 'sub/bad.bare'\nendfunction\nincl()\nsystemLog('never')\n",
 }
+# the same with long names (SCALE axis on the location length, real files: a component is at most 255 bytes, a path 4096)
+LONG_DIR = '/'.join(['descriptive-directory-name-' + c * n for c, n in (('a', 13), ('b', 33), ('c', 73))])
+LONG_NAMES = {'short': 'bad.bare', 'name-100': 'n' * 95 + '.bare', 'name-250': 'm' * 245 + '.bare'}
+for _key, _name in LONG_NAMES.items():
+    HAND_FILES[f'long-{_key}.bare'] = f"systemLog('k1')\ninclude '{LONG_DIR}/mid.bare'\nsystemLog('never')\n"
+    HAND_FILES[f'longmiss-{_key}.bare'] = f"systemLog('k1')\ninclude '{LONG_DIR}/{_key}/../{_name}x'\nsystemLog('never')\n"
+    HAND_FILES[f'{LONG_DIR}/{_name}'] = "ok = 1\nx = 1 +\n"
+HAND_FILES[f'{LONG_DIR}/mid.bare'] = "systemLog('mid')\n"               # rewritten per case: includes the broken file of that case
 
 
 def cli_hand(tmp):
@@ -784,12 +957,25 @@ def cli_hand(tmp):
         lines, code = run_cli([main])
         head = (['k1'] if name == 'brk.bare' else []) + [main + ':', f'Included from "{os.path.join(proj, "sub/bad.bare")}"', 'Syntax error, line number 2:']
         out.append((name, {'stdout': head, 'exit': 1}, {'stdout': lines[:len(head)], 'exit': code}))
+    for key, name in LONG_NAMES.items():
+        main = os.path.join(proj, f'long-{key}.bare')
+        with open(os.path.join(proj, LONG_DIR, 'mid.bare'), 'w', encoding='utf-8') as fh:
+            fh.write(f"systemLog('mid')\ninclude '{name}'\n")
+        lines, code = run_cli([main])
+        head = ['k1', 'mid', main + ':', f'Included from "{os.path.join(proj, LONG_DIR, name)}"', 'Syntax error, line number 2:']
+        out.append((f'long-{key}', {'stdout': head, 'exit': 1}, {'stdout': lines[:len(head)], 'exit': code}))
+        main = os.path.join(proj, f'longmiss-{key}.bare')
+        lines, code = run_cli([main])
+        out.append((f'longmiss-{key}', {'stdout': ['k1', main + ':', f'Include of "{os.path.join(proj, LONG_DIR, key, "..", name + "x")}" failed'], 'exit': 1},
+                    {'stdout': lines, 'exit': code}))
     return out
 
 
 def stream_cli(ctx):
     st = ctx.stream('cli', 'bare.main([file]) over real files in a temporary directory (absolute and cwd-relative invocation), nested relative '
-                           'includes and `include <...>` of packaged includes through the CLI fetcher; stdout lines compared with the model; '
+                           'includes and `include <...>` of packaged includes through the CLI fetcher; hand cases incl. broken / missing files '
+                           'below three long directory names with file names of 8 / 100 / 250 characters (resolved locations of 200-450 '
+                           'characters in the error lines); stdout lines compared with the model; '
                            'non-trivial = at least one include executed')
     rng = ctx.rng('cli')
     base_tmp = os.environ.get('VERIF_TMP') or None
@@ -1301,7 +1487,7 @@ def rx_run_impl(case):
         else:
             outcome = {'kind': 'other', 'class': 'BareScriptRuntimeError', 'msg': msg}
     except BaseException as exc:  # pylint: disable=broad-except
-        outcome = {'kind': 'other', 'class': type(exc).__name__, 'msg': str(exc)}
+        outcome = {'kind': 'other', 'class': type(exc).__name__, 'msg': safe_text(exc)}
     out = {'events': events, 'outcome': outcome, 'trace': globals_.get('trace')}
     if bad_requests:
         out['bad_requests'] = bad_requests[:3]
@@ -2175,7 +2361,7 @@ def reuse_impl(session):
             else:
                 outcome = {'kind': 'other', 'class': 'BareScriptRuntimeError', 'msg': msg}
         except BaseException as exc:  # pylint: disable=broad-except
-            outcome = {'kind': 'other', 'class': type(exc).__name__, 'msg': str(exc)}
+            outcome = {'kind': 'other', 'class': type(exc).__name__, 'msg': safe_text(exc)}
         changed = sorted(k for k in REUSE_KEPT if options.get(k, '<absent>') is not kept[k])
         out.append({'events': cur['events'], 'outcome': outcome, 'trace': globals_.get('trace'), 'statementCount': options.get('statementCount'),
                     'changed': changed, 'bad_requests': cur['bad'][:3]})
@@ -2259,11 +2445,194 @@ def id_of(session):
 
 
 # ---------------------------------------------------------------------------------------------------------------------
+# hostcfg stream: host-level forms of the configuration the Lean model cannot express
+# ---------------------------------------------------------------------------------------------------------------------
+#
+# The property quantifies over configurations. The Lean machine knows a system prefix (a string or none), a root location
+# and "the fetch of this location throws"; it cannot express WHICH object the host passed. This stream runs include trees
+# under the host-level forms of the same configurations:
+#   * option values that are configured but false in a truth test: systemPrefix == '' (system includes live at the root of
+#     the fetch name space: resolve('', 'lib.bare') == 'lib.bare'; the Lean machine does express this one), urlFn / fetchFn /
+#     logFn given as callable objects whose bool() is False or whose len() is 0; str subclasses for the locations;
+#   * debug mode on / off, a log function present / absent / one that rejects the lines of debug mode (texts that produce no
+#     such line are used with it: only systemLog statements and includes);
+#   * fetch functions that throw anything a host can throw (HOST_THROWS).
+# Oracle (implementation side): the property statement, spec_obs - fetch requests and log lines in order, the outcome naming
+# the resolved location - which does not depend on any of these forms.
+
+HOST_LOGS = ['record', 'absent', 'rejects-debug', 'falsy']
+HOST_BASES = [('http://h/app/main.bare', 'http://h/system/'), ('/srv/app/main.bare', '/usr/share/bare/'), ('app/main.bare', 'system/'),
+              (None, 'system/'), ('/srv/app/main.bare', ''), ('http://h/app/main.bare', ''), ('app/main.bare', ''), (None, ''),
+              ('/srv/app/main.bare', None)]
+
+
+def host_hand_tree(root_loc, prefix, failing, kind, host):
+    """main -> lib/a.bare -> sub/b.bare, system includes at every level (texts: systemLog and include statements only - the linter
+    has nothing to say about them, so debug mode logs nothing of its own while they run)."""
+    def inc(*refs):
+        return {'inc': [[r[1:-1], True] if r.startswith('<') else [r, False] for r in refs]}
+    root = [{'stmt': 'Lm1'}, inc('lib/a.bare'), {'stmt': 'Lm2'}, inc('<sys.bare>'), {'stmt': 'Lm3'}]
+    loc_a = spec_location(prefix, root_loc, 'lib/a.bare', False)
+    loc_b = spec_location(prefix, loc_a, 'sub/b.bare', False)
+    loc_s = spec_location(prefix, root_loc, 'sys.bare', True)
+    loc_s2 = spec_location(prefix, loc_a, 'sys2.bare', True)
+    loc_s3 = spec_location(prefix, loc_b, 'deep/sys3.bare', True)
+    loc_s4 = spec_location(prefix, loc_s3, 'sys4.bare', False)
+    texts = {
+        loc_a: [{'stmt': 'La1'}, inc('sub/b.bare', '<sys2.bare>'), {'stmt': 'La2'}],
+        loc_b: [{'stmt': 'Lb1'}, inc('<deep/sys3.bare>'), {'stmt': 'Lb2'}],
+        loc_s: [{'stmt': 'Ls1'}],
+        loc_s2: [{'stmt': 'Ls2'}, 'ret', {'stmt': 'Lnever'}],
+        loc_s3: [{'stmt': 'Ls3'}, inc('sys4.bare')],
+        loc_s4: [{'stmt': 'Ls4'}],
+    }
+    files = {loc: {'kind': 'text', 'items': items, 'text': '\n'.join(mc_render(items)) + '\n'} for loc, items in texts.items()}
+    bad = {'a': loc_a, 'b': loc_b, 'sys': loc_s, 'sys2': loc_s2, 'sys3': loc_s3, 'sys4': loc_s4}.get(failing)
+    if bad is not None:
+        files[bad] = ({'kind': 'missing'} if kind == 'missing' else {'kind': 'broken', 'text': "systemLog('Lk')\nx = 1 +\n"} if kind == 'broken'
+                      else {'kind': 'throws', 'exc': kind})
+    return {'files': files, 'root': {'items': root, 'text': '\n'.join(mc_render(root, True))}, 'urlFn': root_loc, 'systemPrefix': prefix,
+            'maxStatements': BIG, 'fetch': True, 'acyclic': True, 'host': host}
+
+
+def host_hand_cases(full):
+    """Every base x failing location x debug x log form; the kind of failure runs through all kinds (quick) / every kind with every
+    combination (thorough). Plus the callables that are false in a truth test, on trees without a failure."""
+    kinds = ['missing', 'broken'] + HOST_THROWS
+    out, k = [], 0
+    for (root_loc, prefix), failing, debug, log in itertools.product(HOST_BASES, ['a', 'b', 'sys', 'sys2', 'sys3', 'sys4'], [True, False], HOST_LOGS):
+        for kind in (kinds if full else [kinds[k % len(kinds)], kinds[(k * 7 + 3) % len(kinds)]]):
+            host = {'debug': debug, 'log': log}
+            if k % 5 == 0:
+                host['wrap'] = 'strsub'
+            if k % 3 == 0:
+                host['fetchFn'] = ['falsy', 'empty'][k % 2]
+            out.append(host_hand_tree(root_loc, prefix, failing, kind, host))
+        k += 1
+    for (root_loc, prefix), debug, log, fetch_form, url_form in itertools.product(HOST_BASES, [False, True], HOST_LOGS + ['empty'],
+                                                                                   ['plain', 'falsy', 'empty'], ['plain', 'falsy', 'empty']):
+        if not full and (fetch_form, url_form, log) not in (('plain', 'plain', 'record'), ('falsy', 'falsy', 'falsy'), ('empty', 'empty', 'empty'),
+                                                             ('falsy', 'plain', 'absent'), ('plain', 'empty', 'rejects-debug'),
+                                                             ('plain', 'falsy', 'record')):
+            continue
+        out.append(host_hand_tree(root_loc, prefix, None, None, {'debug': debug, 'log': log, 'fetchFn': fetch_form, 'urlFn': url_form}))
+    return out
+
+
+class HostTreeGen(TreeGen):
+    """The random include trees of the include stream under a random host-level configuration: an empty system prefix half of the time
+    and more system includes (at every depth, under URL / path / no base), throwing fetch functions of every kind."""
+
+    def __init__(self, rng):
+        super().__init__(rng, max_depth=3)
+        self.prefix = rng.choice(['', '', '', '', None, '/usr/lib/bare/', 'sysdir/', 'https://sys.example/lib/', 'x'])
+        self.p_fail = rng.choice([0, 0.1, 0.3, 0.5])
+        self.fetch = True
+        self.host = {'debug': rng.random() < 0.5, 'log': rng.choice(['record', 'record', 'absent', 'falsy', 'empty']),
+                     'fetchFn': rng.choice(['plain', 'plain', 'falsy', 'empty']), 'urlFn': rng.choice(['plain', 'plain', 'falsy', 'empty']),
+                     'wrap': rng.choice(['str', 'str', 'strsub'])}
+        if not self.host['debug'] and rng.random() < 0.3:
+            self.host['log'] = 'rejects-debug'                        # no debug mode: no such line
+        self.p_system = rng.choice([0.0, 0.3, 0.6])
+
+    def make_ref(self, ancestors):
+        ref, system = super().make_ref(ancestors)
+        if not system and '>' not in ref and self.rng.random() < self.p_system and not (self.cycle and ref in ancestors):
+            system = True
+        return ref, system
+
+    def build(self):
+        case = super().build()
+        for f in case['files'].values():
+            if f['kind'] == 'throws' and self.rng.random() < 0.85:
+                f['exc'] = self.rng.choice(HOST_THROWS)
+        case['host'] = self.host
+        return case
+
+
+def stream_hostcfg(ctx):
+    st = ctx.stream('hostcfg', 'include trees under host-level forms of the configuration (the Lean machine knows a prefix string, a root location and '
+                               '"this fetch throws"; which OBJECT the host passed is host-only: implementation-side oracle spec_obs, the model is '
+                               'compared on the events it can express): systemPrefix == "" (configured, false in a truth test) with system includes '
+                               'at depth 0-3 under URL / absolute / relative / no base; urlFn / fetchFn / logFn as callables with bool() False or '
+                               'len() 0; str subclasses; debug on/off; log function recording / absent / rejecting debug lines; fetch functions '
+                               f'throwing {len(HOST_THROWS)} kinds of exception (I/O errors, non-Exception BaseExceptions, exceptions whose text cannot '
+                               'be produced, the library\'s own error classes with decoy texts). Hand tree main -> lib/a -> sub/b with system '
+                               'includes at every level x 9 bases x 6 failing locations x debug x 4 log forms (failure kind rotating in quick, every '
+                               'kind in thorough) + random trees of the include stream generator. non-trivial = a fetch request was made')
+    cases = [('hand', c) for c in host_hand_cases(ctx.tier != 'quick')]
+    rng = ctx.rng('hostcfg')
+    for _ in range(ctx.scale(1500, 25000)):
+        cases.append(('random', HostTreeGen(rng).build()))
+    resps = ctx.driver.batch([model_request(c) for _, c in cases])
+    for (origin, case), resp in zip(cases, resps):
+        check_case(ctx, st, case, resp, origin)
+
+
+# ---------------------------------------------------------------------------------------------------------------------
+# longloc stream: SCALE axis on the length of locations (file and directory names, prefixes, root locations, broken lines)
+# ---------------------------------------------------------------------------------------------------------------------
+
+LONG_SIZES = [0, 1, 2, 9, 10, 11, 16, 17, 30, 40, 64, 65, 90, 100, 101, 104, 105, 119, 120, 121, 128, 129, 256, 1000]
+
+
+class LongTreeGen(TreeGen):
+    """Include trees whose names are padded: resolved locations from a few to several thousand characters, most trees with a file that
+    cannot be fetched or does not parse - the errors must name the WHOLE resolved location."""
+
+    def __init__(self, rng):
+        super().__init__(rng, max_depth=rng.choice([1, 2, 3, 4]), max_fan=2)
+        self.cycle = False
+        self.max_statements = BIG
+        self.fetch = True
+        self.p_fail = rng.choice([0.15, 0.3, 0.5])
+        self.size = rng.choice(LONG_SIZES[8:])
+        if self.root_loc and rng.random() < 0.4:
+            d, sep, name = self.root_loc.rpartition('/')
+            self.root_loc = d + sep + 'R' + self.pad() + '/' + name if sep else self.pad() + self.root_loc
+        if self.prefix and self.prefix.endswith('/') and rng.random() < 0.4:
+            self.prefix += 'P' + self.pad() + '/'
+
+    def pad(self):
+        rng = self.rng
+        n = rng.choice([self.size, self.size, rng.choice(LONG_SIZES)]) + rng.choice([0, 0, 0, -1, 1, rng.randint(-8, 8)])
+        word = rng.choice(['x', 'descriptive-directory-name-', 'Ab0_', 'é', 'a b'])
+        return (word * (n // len(word) + 1))[:max(n, 0)]
+
+    def fresh(self):
+        self.counter += 1
+        return f'n{self.counter}{self.pad()}.bare'
+
+    def build(self):
+        case = super().build()
+        rng = self.rng
+        for f in case['files'].values():
+            if f['kind'] == 'broken' and rng.random() < 0.4:
+                # the broken line itself is long (the parser shows a window of it) / the text before it is
+                n = rng.choice(LONG_SIZES[10:])
+                f['text'] = rng.choice(['v' + 'x' * n + ' = (1', "b = '" + 'y' * n, 'x = 1 + ' + '2 + ' * (n // 4), '# ' + 'c' * n + '\nx = 1 +'])
+        return case
+
+
+def stream_longloc(ctx):
+    st = ctx.stream('longloc', 'SCALE axis on names: random include trees (depth 1-4, fan-out <= 2) whose file and directory names, root location '
+                               'and system prefix are padded to ' + ', '.join(str(n) for n in LONG_SIZES) + ' characters (+-1, +-8; ASCII, spaces, '
+                               'non-ASCII), so resolved locations run from a few to several thousand characters; 15-50 % of the files are missing / '
+                               'throwing / broken (broken lines up to 1000 characters): the runtime error and the parser error must name the whole '
+                               'resolved location; compared with the Lean machine and with the property reading; non-trivial = a fetch request was made')
+    rng = ctx.rng('longloc')
+    cases = [LongTreeGen(rng).build() for _ in range(ctx.scale(700, 8000))]
+    resps = ctx.driver.batch([model_request(c) for c in cases])
+    for case, resp in zip(cases, resps):
+        check_case(ctx, st, case, resp, 'random')
+
+
+# ---------------------------------------------------------------------------------------------------------------------
 
 def streams(ctx):
     url_pairs, inc_cases = load_corpus()
-    for fn, args in ((stream_url, (url_pairs,)), (stream_include, (inc_cases,)), (stream_reexec, ()), (stream_reuse, ()), (stream_cli, ()),
-                     (stream_mcli, ())):
+    for fn, args in ((stream_url, (url_pairs,)), (stream_include, (inc_cases,)), (stream_hostcfg, ()), (stream_longloc, ()), (stream_reexec, ()),
+                     (stream_reuse, ()), (stream_cli, ()), (stream_mcli, ())):
         t0 = ctx.elapsed()
         fn(ctx, *args)
         if os.environ.get('VERIF_C17_TIMING'):
@@ -2282,8 +2651,8 @@ def search(ctx):
         if impl != want:
             ctx.witness('resolve-spec', [b, r], want, impl)
             return
-    for _ in range(ctx.scale(4000, 40000)):
-        case = TreeGen(rng).build()
+    gens = [TreeGen] * ctx.scale(4000, 40000) + [HostTreeGen] * ctx.scale(3000, 30000) + [LongTreeGen] * ctx.scale(1500, 15000)
+    for case in itertools.chain(host_hand_cases(True), (gen(rng).build() for gen in gens)):
         impl = run_impl(case)
         want, ok = spec_obs(case, impl)
         if not ok:
@@ -2367,3 +2736,9 @@ LEVEL_TEXT = ('Theorems for include trees of any depth and fan-out over any file
 LEVEL_NOTE = ('Trusted: Lean kernel; correspondence harness and its tree renderer. Modelled not verified: CPython 3.12 POSIX pathlib/posixpath/str.rfind '
               '(hence resolve_spec_partial), the re engine for ^[a-z]+:. The machine abstracts non-include statements to opaque effects and '
               'parsing to ok/broken; statement budget outcomes are compared with the implementation but are C09\'s subject.')
+
+
+# extension: ONE machine - the include semantics of Machine.execute is the C17 include model (DESIGN 13.9)
+from props import c17x  # noqa: E402  pylint: disable=wrong-import-position
+c17x.EXTRA_ROOTS = ['Drv.C17X']
+fw.attach_extension(globals(), c17x)
